@@ -4,6 +4,7 @@ import (
 	"fmt"
 	"strings"
 
+	"github.com/WuKongIM/WuKongIM/internal/usecase/message"
 	ch "github.com/WuKongIM/WuKongIM/pkg/channel"
 )
 
@@ -76,6 +77,53 @@ func (e *engine) finish(op *opRec, idx int) {
 		} else {
 			r.Probe("retention.err." + errClass(op.err))
 		}
+	case "gc":
+		g := op.gc
+		r.Logf("  done op%d gc -> %s scanned=%d applied=%d trimmed=%d blocked=%d deleted=%d more=%v errors=%d", op.id, errClass(op.err), g.ScannedChannels, g.AppliedChannels,
+			g.TrimmedChannels, g.BlockedChannels, g.DeletedMessages, g.More, g.Errors)
+		if op.err != nil {
+			r.Probe("physical_driver.pass_err." + errClass(op.err))
+			break
+		}
+		r.Probe("physical_driver.pass")
+		// catalog cursor: one cycle (first page until a page without More) visits
+		// every channel the catalog held when it began, and none twice
+		if cyc := e.gcCycles[op.node]; cyc != nil {
+			cyc.passes++
+			cyc.scanned += g.ScannedChannels
+			now := e.catalogSize(op.node)
+			if now >= 0 && cyc.scanned > now {
+				r.FailSig("gc-catalog-rescan", "", fmt.Sprintf("op%d %s: %d passes of one catalog cycle on node %d scanned %d entries, the catalog holds %d channels: a page was handed out twice", op.id, op.kind, cyc.passes, op.node, cyc.scanned, now), nil)
+				return
+			}
+			if !g.More {
+				r.Probe("physical_driver.catalog_cycle_complete")
+				if cyc.scanned < cyc.atStart {
+					r.FailSig("gc-catalog-skipped", "", fmt.Sprintf("op%d %s: the catalog cycle on node %d ended after %d passes with %d entries scanned, the catalog held %d channels when it began", op.id, op.kind, op.node, cyc.passes, cyc.scanned, cyc.atStart), nil)
+					return
+				}
+				delete(e.gcCycles, op.node)
+			}
+		}
+		if g.More {
+			r.Probe("physical_driver.catalog_page_more")
+		}
+		if g.AppliedChannels > 0 {
+			r.Probe("physical_driver.applied")
+		}
+		if g.BlockedChannels > 0 {
+			r.Probe("physical_driver.blocked")
+		}
+		if g.Errors > 0 {
+			r.Probe("physical_driver.channel_error_skipped")
+		}
+		if g.DeletedMessages > 0 {
+			r.Probe("physical_driver.trimmed")
+			// the pass is the only action of its step: what it reports deleted is what vanished from this node's store
+			if idx == op.start+1 && e.lastDeleted[op.node] != g.DeletedMessages {
+				r.Probe("physical_driver.deleted_count_differs_from_store")
+			}
+		}
 	default:
 		e.checkRead(op, idx)
 	}
@@ -92,6 +140,12 @@ func (e *engine) checkRead(op *opRec, idx int) {
 	if len(op.msgs) > 0 {
 		e.readsMsgs++
 		r.Probe("read.nonempty." + op.kind)
+	}
+	if op.synced {
+		e.checkPages(op, idx)
+		if r.Failed() {
+			return
+		}
 	}
 	serving := op.serving
 	forwarded := !op.mgmt && serving != op.node
@@ -193,6 +247,152 @@ func (e *engine) checkRead(op *opRec, idx int) {
 	if op.mgmt {
 		r.Probe("read.mgmt_checked")
 	}
+}
+
+// checkPages: what internal/infra/cluster/message_reader.go itself promises about
+// a page, beyond the watermark and boundary rules checked per message: ascending
+// order without duplicates, at most Limit messages, HasMore only on a full page,
+// every message inside the query's own bounds (pull down: EndSeq < seq <=
+// StartSeq; pull up: StartSeq <= seq < EndSeq; seq >= MinSeq), and no ordinary
+// durable row of the serving replica skipped between two returned messages.
+func (e *engine) checkPages(op *opRec, idx int) {
+	r := e.r
+	for pi, pg := range op.pages {
+		q := pg.q
+		limit := q.Limit
+		if limit <= 0 {
+			limit = 1
+		}
+		what := fmt.Sprintf("op%d %s page %d (mode=%d start=%d end=%d min=%d limit=%d) = %s", op.id, op.kind, pi, q.PullMode, q.StartSeq, q.EndSeq, q.MinSeq, q.Limit, seqList(pg.msgs))
+		latest := q.StartSeq == 0 && q.EndSeq == 0
+		switch {
+		case latest:
+			r.Probe("reader.latest")
+		case q.PullMode == message.PullModeDown:
+			r.Probe("reader.pull_down")
+		default:
+			r.Probe("reader.pull_up")
+		}
+		if len(pg.msgs) > limit {
+			r.FailSig("page-over-limit", op.kind, what+fmt.Sprintf(": %d messages for limit %d", len(pg.msgs), limit), nil)
+			return
+		}
+		if pg.hasMore {
+			r.Probe("reader.has_more")
+			if len(pg.msgs) != limit {
+				r.FailSig("page-hasmore-short", op.kind, what+fmt.Sprintf(": HasMore with %d of %d messages", len(pg.msgs), limit), nil)
+				return
+			}
+		}
+		for i, m := range pg.msgs {
+			if i > 0 && m.seq <= pg.msgs[i-1].seq {
+				r.FailSig("page-order", op.kind, what+": not in strictly ascending sequence order", nil)
+				return
+			}
+			bad := ""
+			switch {
+			case q.MinSeq > 0 && m.seq < q.MinSeq:
+				bad = "below MinSeq"
+			case latest:
+			case q.PullMode == message.PullModeDown && q.StartSeq > 0 && m.seq > q.StartSeq:
+				bad = "above StartSeq of a pull-down query"
+			case q.PullMode == message.PullModeDown && q.EndSeq > 0 && m.seq <= q.EndSeq:
+				bad = "at or below EndSeq of a pull-down query"
+			case q.PullMode == message.PullModeUp && m.seq < q.StartSeq:
+				bad = "below StartSeq of a pull-up query"
+			case q.PullMode == message.PullModeUp && q.EndSeq > 0 && m.seq >= q.EndSeq:
+				bad = "at or above EndSeq of a pull-up query"
+			}
+			if bad != "" {
+				r.FailSig("page-out-of-bounds", op.kind, what+fmt.Sprintf(": seq %d is %s", m.seq, bad), nil)
+				return
+			}
+		}
+		if len(pg.msgs) >= 2 {
+			r.Probe("reader.multi_message_page")
+			rows := e.snaps[idx][op.serving].stored
+			got := map[uint64]bool{}
+			for _, m := range pg.msgs {
+				got[m.seq] = true
+			}
+			for s := pg.msgs[0].seq + 1; s < pg.msgs[len(pg.msgs)-1].seq; s++ {
+				row, ok := rows[s]
+				if !ok || got[s] || row.syncOnce || e.barrierIDs[row.id] {
+					continue
+				}
+				r.FailSig("page-gap", op.kind, what+fmt.Sprintf(": ordinary durable row seq %d (message %d) of serving node %d lies between two returned messages but is missing", s, row.id, op.serving), nil)
+				return
+			}
+		}
+		if len(pg.msgs) > 0 {
+			if s, id := e.pageAnchorMiss(op, idx, pg, latest); s > 0 {
+				end := "newest"
+				if !latest && q.PullMode != message.PullModeDown {
+					end = "oldest"
+				}
+				r.FailSig("page-anchor", op.kind, what+fmt.Sprintf(": the page must start at the %s matching row, but ordinary durable row seq %d (message %d) of serving node %d, committed and above the retention boundary during the whole read, was passed over", end, s, id, op.serving), nil)
+				return
+			}
+		}
+	}
+}
+
+// pageAnchorMiss: a truncated page has to be cut from the far end, never from the
+// end the query starts at (newest rows for latest / pull-down, oldest rows for
+// pull-up). It returns an ordinary durable row of the serving replica that lies
+// between the query's starting bound and the page although it was visible during
+// the whole read: stored unchanged at invocation and at completion, at or below
+// the lowest committed watermark (runtime and persisted) and above the highest
+// retention boundary the serving replica showed in that interval. 0 = none or
+// not decidable (replica not loaded for part of the interval).
+func (e *engine) pageAnchorMiss(op *opRec, idx int, pg syncPage, latest bool) (uint64, uint64) {
+	q := pg.q
+	hwLow := ^uint64(0)
+	var floor uint64
+	for i := op.start; i <= idx; i++ {
+		s := e.snaps[i][op.serving]
+		if s == nil || !s.loaded || s.view == 0 {
+			return 0, 0
+		}
+		hwLow = min64(hwLow, min64(s.phw, s.rv.HW))
+		floor = max64(floor, max64(s.viewRet, s.ret.LocalRetentionThroughSeq))
+		if o := e.snaps[i][op.node]; o != nil {
+			floor = max64(floor, o.viewRet)
+		}
+	}
+	floor = max64(floor, e.maxReq[op.serving])
+	first, last := e.snaps[op.start][op.serving].stored, e.snaps[idx][op.serving].stored
+	visible := func(s uint64) (uint64, bool) {
+		a, ok1 := first[s]
+		b, ok2 := last[s]
+		if !ok1 || !ok2 || a.id != b.id || b.syncOnce || a.syncOnce || e.barrierIDs[b.id] {
+			return 0, false
+		}
+		return b.id, s <= hwLow && s > floor && s >= q.MinSeq
+	}
+	lo, hi := pg.msgs[0].seq, pg.msgs[len(pg.msgs)-1].seq
+	if latest || q.PullMode == message.PullModeDown {
+		top := hwLow
+		if q.StartSeq > 0 {
+			top = min64(top, q.StartSeq)
+		}
+		for s := hi + 1; s <= top && s > hi; s++ {
+			if id, ok := visible(s); ok {
+				return s, id
+			}
+		}
+		return 0, 0
+	}
+	from := q.StartSeq
+	if from == 0 {
+		from = 1
+	}
+	for s := from; s < lo; s++ {
+		if id, ok := visible(s); ok {
+			return s, id
+		}
+	}
+	return 0, 0
 }
 
 // defer_ records a management-path violation; it is raised at the end of the
